@@ -10,3 +10,9 @@ package kgo
 func VerifIncrementSequence(sequence, increment int32) int32 {
 	return incrementSequence(sequence, increment)
 }
+
+// VerifSetPartitionRacks sets the per-partition replica racks of a
+// ConsumerBalancer (normally filled from cluster metadata by the group leader).
+func VerifSetPartitionRacks(b *ConsumerBalancer, racks map[string][]string) {
+	b.partitionRacks = racks
+}
